@@ -457,7 +457,8 @@ impl Scenario for ShutdownSim {
                     let f = run_server(acc, case.proto, tls_cfg, ctx, exec.clone(), Some(rx));
                     async move {
                         let r = f.await;
-                        (net_s.now_ms(), r.map_err(|e| e.to_string()))
+                        // completion instant (and how much of the clock's progress was the time pump's)
+                        ((net_s.now_ms(), crate::net::pumped_ms()), r.map_err(|e| e.to_string()))
                     }
                 });
                 let mut obs: Vec<Arc<Mutex<ConnObs>>> = vec![];
@@ -489,6 +490,7 @@ impl Scenario for ShutdownSim {
                 // the signal
                 tokio::time::sleep_until(t0 + Duration::from_millis(case.signal_at_ms)).await;
                 let t_s = net.now_ms();
+                let pumped_at_signal = crate::net::pumped_ms();
                 let _ = tx.send(());
                 // two late connects
                 for (k, delay) in [(900u32, 1u64), (901, 40)] {
@@ -525,7 +527,7 @@ impl Scenario for ShutdownSim {
                 let seen = log.lock().seen.clone();
                 let spawned = *exec.spawned.lock();
                 let finished = *exec.finished.lock();
-                (t_s, server_result, obs, seen, spawned, finished, finished_in_time, net.now_ms())
+                ((t_s, pumped_at_signal), server_result, obs, seen, spawned, finished, finished_in_time, net.now_ms())
             })
         }));
         drop(local);
@@ -540,7 +542,7 @@ impl Scenario for ShutdownSim {
                 out.violations.push(Violation::new("C07", "panic", json!({"location": p.location()}), format!("panic: {} at {}", p.message, p.location())));
             }
         }
-        let Ok((t_s, server_result, obs, seen, spawned, finished, finished_in_time, end)) = result else { return out };
+        let Ok(((t_s, pumped_at_signal), server_result, obs, seen, spawned, finished, finished_in_time, end)) = result else { return out };
         if std::env::var("VERIF_TRACE").is_ok() {
             eprintln!("signal at {} ms, server {:?}, tasks {}/{} finished, end {} ms", t_s, server_result, finished, spawned, end);
             for (i, o) in obs.iter().enumerate() {
@@ -558,9 +560,11 @@ impl Scenario for ShutdownSim {
         // (1) the serving future completes successfully at the signal
         match &server_result {
             None => viol("server_still_running", format!("the serving future had not completed {} ms after the shutdown signal", end - t_s)),
-            Some((t, Err(e))) => viol("server_error", format!("serving future ended with an error at {} ms: {}", t, e)),
-            Some((t, Ok(()))) => {
-                if *t != t_s {
+            Some(((t, _), Err(e))) => viol("server_error", format!("serving future ended with an error at {} ms: {}", t, e)),
+            Some(((t, pumped), Ok(()))) => {
+                // the time pump may move the clock between the signal and the poll that observes it
+                // (busy-polling peers); only time that passed for another reason counts as late
+                if t.saturating_sub(*pumped) != t_s.saturating_sub(pumped_at_signal) {
                     viol("server_late", format!("signal at {} ms, serving future completed at {} ms", t_s, t));
                 }
             }
